@@ -36,6 +36,14 @@ def source_for(c):
         extra_out = f"output {{ to: Other, amount: Ada(1), }}"
     elif c["extra"] == "policy_ctor":
         pol = "policy P { hash: 0x" + "11" * 28 + ", script: 0xabcd, }\n"
+    elif c["extra"] in ("two_withdrawals", "mixed_blocks"):
+        params.append("w1: Int")
+        parties.append("Other")
+        extra_out = (f"cardano::withdrawal {{ from: Other, amount: w1, redeemer: (), }}\n  "
+                     f"cardano::withdrawal {{ from: {party}, amount: {p if c['usedParam'] else 7}, redeemer: (), }}")
+        if c["extra"] == "mixed_blocks":
+            extra_out = (f"cardano::withdrawal {{ from: Other, amount: w1, redeemer: (), }}\n  "
+                         "cardano::treasury_donation { coin: w1, }\n  cardano::plutus_witness { version: 3, script: 0x5101010023259800a518a4d136564004ae69, }")
     src = f"env {{ {env}: Int, }}\n" + "".join(f"party {x};\n" for x in parties) + pol
     src += f"tx transfer({', '.join(params)}) {{\n  input source {{ from: {party}, min_amount: {amount}, }}\n"
     src += f"  output {{ to: {party}, amount: source - fees, }}\n  {extra_out}\n}}\n"
@@ -143,8 +151,9 @@ def check_c18(tier, seed):
     rep = core.Report("C18", tier, seed)
     rep.rule = ("a case is a source program: every example of the repository, the C17 spelling programs and generated core programs that "
                 "exercise containers whose order could leak (chain-specific directives with several fields, several parties / "
-                "transactions, maps, multi-asset literals). Each is lowered and encoded 20 times in one driver process, in 3 more "
-                "fresh driver processes, and built 3 times by the real tx3c; all digests of one artifact must be equal. "
+                "transactions, maps, multi-asset literals), plus a revision of each source with other digits in every hex literal. Each is "
+                "lowered and encoded 20 times in one driver process, again in another process, in a process that compiles the sources in "
+                "the opposite order, alone in a fresh process, and built 3 times by the real tx3c; all digests of one artifact must be equal. "
                 "non-trivial: the program has a directive with >= 2 fields or >= 2 transactions; distinct = distinct sources.")
     rep.assumptions = ["TLC 1.8, Json module", "detection of an order leak is probabilistic per program (k! orders, 26 draws) and near certain over the corpus",
                        "Blake2b digests computed by the driver / sha256 of the .tii bytes by the orchestrator"]
@@ -179,6 +188,19 @@ tx multi(quantity: Int, b: Bytes) {
 tx second(quantity: Int) { input source { from: Sender, min_amount: fees, } output { to: Sender, amount: source - fees, } }
 """
     sources.append(("directives", directives))
+    # revisions: the same text with other digits in every hex literal (same positions, same lengths), so that state kept
+    # from compiling one source in a process could be mistaken for the other's
+    import re
+
+    def revise(text):
+        rot = str.maketrans("0123456789abcdefABCDEF", "123456789abcdef0BCDEF0")
+        return re.sub(r"0x[0-9a-fA-F]+", lambda m: "0x" + m.group(0)[2:].translate(rot), text)
+    twins = []
+    for name, src in sources:
+        if "0x" in src and (not quick or len(twins) < 25):
+            twins.append((name + "~rev", revise(src)))
+    sources += twins
+    rep.extra["revised_twins"] = len(twins)
     rep.extra["sources"] = len(sources)
     work = os.path.join(core.OUT, "c18_work")
     shutil.rmtree(work, ignore_errors=True)
@@ -186,10 +208,16 @@ tx second(quantity: Int) { input source { from: Sender, min_amount: fees, } outp
     evs = []
     jobs = [{"id": i, "cmd": "build", "op": "lower_digests", "source": s, "reps": 20} for i, (n, s) in enumerate(sources)]
     first = core.run_driver(jobs)
+    # three more runs under different histories: the same order in another process, the opposite order (a source now comes
+    # after the ones it preceded, its revision included), and every source alone in a process of its own
     others = []
-    for k in range(3):
-        jobs1 = [{"id": i, "cmd": "build", "op": "lower_digests", "source": s, "reps": 1} for i, (n, s) in enumerate(sources)]
-        others.append(core.run_driver(jobs1))
+    jobs1 = [{"id": i, "cmd": "build", "op": "lower_digests", "source": s, "reps": 1} for i, (n, s) in enumerate(sources)]
+    others.append(core.run_driver(jobs1))
+    others.append(core.run_driver(list(reversed(jobs1))))
+    alone = {}
+    for j in jobs1:
+        alone.update(core.run_driver([j]))
+    others.append(alone)
     for i, (name, src) in enumerate(sources):
         e = []
         for x in first[i].get("events", []):
